@@ -88,5 +88,10 @@ func run(c *core.Ctx) {
 	if nHand == 0 || nRefused == 0 {
 		c.Broken("vacuous run: no hand-off / no refused hand-off in the generated behaviours")
 	}
+	if c.Thorough() {
+		chanreplay.ValidateRepoTestTraces(c, "./stream/", "./message/")
+	} else {
+		chanreplay.ValidateRepoTestTraces(c, "./stream/")
+	}
 	c.Set("rule", "behaviours = 3 traffic scripts (single/multi-frame, buffered and direct senders, both receive APIs, frames queued unread) with export+import attempted by either endpoint at EVERY position (chains of 2 in thorough), plus damaged blobs (every strict prefix; corrupted magic / version bytes), enumerated by TLC from Gen_SecureChannel (mode script); every behaviour replayed on two real keyed streams; the model predicts refusal vs success of every export and the continued exchange")
 }
